@@ -176,6 +176,10 @@ def ack_shapes():
            ("And", ("Equals", x, y), ("Not", ("Equals", f2(x, k1), f2(y, k1)))),
            ("Not", ("Equals", f2(k0, x), f2(k1, x))), ("And", ("Equals", x, k0), ("Not", ("Equals", f2(k0, x), f2(x, k0)))),
            ("Not", ("Equals", f(k0), f(k0))), ("And", ("Equals", x, k1), ("Not", ("Equals", f(x), f(k1))))]
+    # applications stored in an array value (entry and default), next to the same application outside it
+    av = ("Array", ("type", BV1), k0, ("dict", (k1, f(x))))
+    sh += [("Not", ("Equals", ("Select", av, k1), f(x))), ("And", ("Equals", x, y), ("Not", ("Equals", ("Select", av, k1), f(y)))),
+           ("Not", ("Equals", ("Select", ("Array", ("type", BV1), f(x)), y), f(x)))]
     return [Shape(t) for t in sh]
 
 
